@@ -51,9 +51,9 @@ Proof.
                                      (ksort (dict_of meta)))
               = norm_tensor (mkTensorP dims dt name doc loc raw [] [] ext meta)).
     { intros nm Hnm. unfold norm_tensor. tproj. rewrite !truthy_idem, Hnm, Hs, H1, (ksort_dict_of meta Hmeta).
-      f_equal. destruct loc as [l|]; simpl in *; subst; reflexivity. }
-    split; [apply Hcore; reflexivity|].
-    split; [intros n Hne E; simpl; apply Hcore; apply Hn; assumption|].
+      f_equal. destruct loc as [l|]; simpl in *; [subst; reflexivity | discriminate]. }
+    split; [exact (Hcore _ eq_refl)|].
+    split; [intros n Hne E; exact (Hcore (Some n) (Hn n Hne E))|].
     repeat split.
   - destruct (dflt 0 dt =? STRING_DT) eqn:Estr.
     + (* string tensor *)
@@ -66,8 +66,8 @@ Proof.
                 = norm_tensor (mkTensorP dims dt name doc loc raw strs [] [] meta)).
       { intros nm Hnm. unfold norm_tensor. tproj. rewrite !truthy_idem, Hnm, H2, (ksort_dict_of meta Hmeta).
         unfold some_dflt. simpl. rewrite Estr, H. reflexivity. }
-      split; [apply Hcore; reflexivity|].
-      split; [intros n Hne E; simpl; apply Hcore; apply Hn; assumption|].
+      split; [exact (Hcore _ eq_refl)|].
+      split; [intros n Hne E; exact (Hcore (Some n) (Hn n Hne E))|].
       repeat split. simpl. symmetry. exact Estr.
     + (* proto-backed tensor *)
       eexists. split; [reflexivity|].
@@ -103,8 +103,9 @@ Lemma vinfo_roundtrip_new vi :
             /\ norm_vinfo (ser_value [] v) = norm_vinfo vi.
 Proof.
   intros H. destruct (vinfo_roundtrip vi (new_value (vname vi)) H eq_refl) as (v & H1 & H2 & H3 & H4 & H5).
-  exists v. repeat split; try assumption. rewrite H5. simpl. unfold norm_vinfo. simpl.
-  unfold vname. rewrite truthy_some_dflt. reflexivity.
+  exists v. repeat split; try assumption. rewrite (H5 []).
+  unfold norm_vinfo; cbn [vi_name vi_type vi_doc vi_meta new_value v_name]. unfold vname.
+  rewrite truthy_some_dflt. reflexivity.
 Qed.
 
 (* ================================================================== stage 4: attributes *)
@@ -122,6 +123,7 @@ Section Attrs.
   Proof. reflexivity. Qed.
 
   Ltac ty_is H := apply Z.eqb_eq in H; rewrite H in *.
+  Ltac aproj := cbn [a_name a_ref a_doc a_type a_val ia_name ia_doc ia_val].
 
   Lemma mapM_tensors l :
     forallb wf_tensor l = true ->
@@ -171,7 +173,6 @@ Section Attrs.
     wf_attr allow_ref wfg a = true ->
     exists ia, deser_attr dg empty_graph scopes a = Ok ia
                /\ ia_name ia = dflt [] (a_name a)
-               /\ (match ia_val ia with IARef _ _ => truthy (a_ref a) <> None | IAUndef => False | _ => truthy (a_ref a) = None end)
                /\ exists a', ser_attr sg ia = Ok a'
                              /\ norm_attr norm_graph empty_graph a' = norm_attr norm_graph empty_graph a.
   Proof.
@@ -181,8 +182,8 @@ Section Attrs.
     destruct (truthy ref) as [r|] eqn:Eref.
     - (* reference attribute *)
       split_andb Hrest. destruct v; try discriminate.
-      eexists. split; [reflexivity|]. simpl. split; [reflexivity|]. split; [discriminate|].
-      eexists. split; [reflexivity|]. unfold norm_attr. simpl.
+      eexists. split; [reflexivity|]. simpl. split; [reflexivity|].
+      eexists. split; [reflexivity|]. unfold norm_attr, ser_attr. aproj.
       rewrite truthy_some_dflt, truthy_idem.
       assert (Er : truthy (Some r) = Some r) by (rewrite <- Eref; apply truthy_idem).
       rewrite Er, Eref. destruct ty; reflexivity.
@@ -191,22 +192,23 @@ Section Attrs.
       destruct Hsp as [Hsp1 Hsp2]. apply negb_true_iff in Hundef.
       (* common normal form of the produced attribute *)
       assert (Hfin : forall iv av,
-                 (match iv with IARef _ _ | IAUndef => False | _ => True end) ->
+                 True ->
                  ser_attr sg (mkIAttr (dflt [] name) doc iv) = Ok (mkAttrP (Some (dflt [] name)) None (truthy doc) (Some (dflt 0 ty)) av) ->
                  norm_attrv norm_graph av
                  = (match v with ANone => default_val empty_graph (dflt 0 ty) | _ => norm_attrv norm_graph v end) ->
                  av <> ANone ->
                  exists ia, Ok (mkIAttr (dflt [] name) doc iv) = Ok ia /\ ia_name ia = dflt [] name
-                   /\ (match ia_val ia with IARef _ _ => None <> None | IAUndef => False | _ => @None str = None end)
                    /\ exists a', ser_attr sg ia = Ok a'
                         /\ norm_attr norm_graph empty_graph a'
                            = norm_attr norm_graph empty_graph (mkAttrP name ref doc ty v)).
       { intros iv av Hiv Hser Hnv Hne. eexists. split; [reflexivity|]. split; [reflexivity|].
-        split; [destruct iv; simpl in *; try reflexivity; contradiction|].
-        eexists. split; [exact Hser|]. unfold norm_attr. simpl.
-        rewrite truthy_some_dflt, truthy_idem, Eref. f_equal.
-        - destruct ty; reflexivity.
-        - destruct av; try contradiction; simpl in *; destruct v; simpl in *; try exact Hnv; try congruence. }
+        eexists. split; [exact Hser|]. unfold norm_attr. aproj.
+        rewrite truthy_some_dflt, truthy_idem, Eref.
+        assert (Ety : some_dflt (Some (dflt 0 ty)) = some_dflt ty) by (destruct ty; reflexivity).
+        rewrite Ety. f_equal.
+        change (truthy None) with (@None str).
+        assert (Edf : dflt 0 (Some (dflt 0 ty)) = dflt 0 ty) by reflexivity. rewrite Edf.
+        destruct av; [exfalso; apply Hne; reflexivity | ..]; (etransitivity; [exact Hnv|]); destruct v; reflexivity. }
       destruct (dflt 0 ty =? AttributeType_INT) eqn:E1.
       { ty_is E1. simpl. destruct v; simpl in Hv; try discriminate;
         (eapply Hfin; [exact I | reflexivity | reflexivity | discriminate]). }
@@ -235,9 +237,9 @@ Section Attrs.
       destruct (dflt 0 ty =? AttributeType_GRAPH) eqn:E8.
       { ty_is E8. simpl. destruct v; simpl in Hv; try discriminate.
         - destruct (Hg empty_graph Hempty) as (ig & Ha & g' & Hb & Hc). rewrite Ha. simpl.
-          eapply Hfin; [exact I | simpl; rewrite Hb; reflexivity | | discriminate]. simpl. rewrite Hc. reflexivity.
+          eapply Hfin; [exact I | unfold ser_attr; cbn; rewrite Hb; reflexivity | | discriminate]. simpl. rewrite Hc. reflexivity.
         - destruct (Hg g Hv) as (ig & Ha & g' & Hb & Hc). rewrite Ha. simpl.
-          eapply Hfin; [exact I | simpl; rewrite Hb; reflexivity | | discriminate]. simpl. rewrite Hc. reflexivity. }
+          eapply Hfin; [exact I | unfold ser_attr; cbn; rewrite Hb; reflexivity | | discriminate]. simpl. rewrite Hc. reflexivity. }
       destruct (dflt 0 ty =? AttributeType_TENSORS) eqn:E9.
       { ty_is E9. simpl. destruct v; simpl in Hv; try discriminate.
         - eapply Hfin; [exact I | reflexivity | reflexivity | discriminate].
@@ -247,7 +249,7 @@ Section Attrs.
       { ty_is E10. simpl. destruct v; simpl in Hv; try discriminate.
         - eapply Hfin; [exact I | reflexivity | reflexivity | discriminate].
         - destruct (mapM_graphs l Hv) as (l' & Ha & l'' & Hb & Hc). rewrite Ha. simpl.
-          eapply Hfin; [exact I | simpl; rewrite Hb; reflexivity | | discriminate]. simpl. rewrite Hc. reflexivity. }
+          eapply Hfin; [exact I | unfold ser_attr; cbn; rewrite Hb; reflexivity | | discriminate]. simpl. rewrite Hc. reflexivity. }
       destruct (dflt 0 ty =? AttributeType_TYPE_PROTO) eqn:E11.
       { ty_is E11. simpl. destruct v; simpl in Hv; try discriminate.
         - eapply Hfin; [exact I | reflexivity | reflexivity | discriminate].
